@@ -17,7 +17,16 @@
 (* symbol: for an input with gaps it prescribes the delivered items.        *)
 (* One process per ESC occurrence models the timers (the callback of an     *)
 (* earlier ESC may still be running when a later ESC arms a new timer).     *)
-EXTENDS VT500, TLC
+(* The input is a sequence of BYTES.  With Split the two-byte scalar U+00E9 *)
+(* (bytes C3 A9) may occur, each byte with its own arrival gap: the run     *)
+(* loop reads whole scalars, so after the lead byte alone it waits for the  *)
+(* trail byte.  PeekStop tells when the ESC timer is stopped: FALSE (as     *)
+(* found) once the whole scalar has been read, TRUE (repaired) as soon as   *)
+(* one byte is there.  WireGaps lets silence on the wire elapse while the   *)
+(* run loop is held up by the consumer (blocked in a send) with unread      *)
+(* input: the shape of the recorded finding "ESC timer counts from when the *)
+(* ESC is handled, not from when it arrived".                               *)
+EXTENDS ParserLifeInput, TLC
 
 CONSTANTS MaxLen,        \* input length bound
           Cap,           \* channel capacity (2 in the code)
@@ -25,9 +34,15 @@ CONSTANTS MaxLen,        \* input length bound
           EmitUnlocked,  \* TRUE (negative control): the repaired callback releases the mutex while it sends
           StallFire,     \* TRUE: the run loop may be descheduled at the top of its loop for longer than the
                          \* ESC delay, so the timer of a pending ESC can fire there too (not only during silence)
-          FixedTimer     \* TRUE: model of the repaired callback (whole callback under the mutex, owner check)
+          FixedTimer,    \* TRUE: model of the repaired callback (whole callback under the mutex, owner check)
+          Split,         \* TRUE: the input may contain the two-byte scalar (lead byte, trail byte)
+          PeekStop,      \* TRUE: the ESC timer is stopped as soon as one byte is available (repaired readRune)
+          WireGaps       \* TRUE: a long gap may elapse on the wire while the run loop is blocked in a send
 
-Syms == {27, 91, 65}     \* ESC, "[", "A"
+Lead == 195              \* C3 A9 = U+00E9
+Trail == 169
+Scalar2 == 233
+Syms == IF Split THEN {27, 91, 65, Lead, Trail} ELSE {27, 91, 65}     \* ESC, "[", "A" (and the two bytes)
 Gaps == {"short", "long"}
 
 VARIABLES inp,      \* the input: sequence of [c, gap]; chosen in Init
@@ -51,7 +66,12 @@ VARIABLES inp,      \* the input: sequence of [c, gap]; chosen in Init
 
 vars == <<inp, eofGap, avail, rd, rpc, sym, st, owner, mu, tm, last, buf, sendq, closed, panic, got, closeReq, clobber, pend, expired, finished>>
 
-Inputs == UNION {[1..n -> [c : Syms, gap : Gaps]] : n \in 0..MaxLen}
+(* well-formed UTF-8: a lead byte is followed by its trail byte, a trail byte follows a lead byte *)
+WellFormed(s) ==
+  \A i \in 1..Len(s) :
+     /\ ((s[i].c = Lead) => (i < Len(s) /\ s[i + 1].c = Trail))
+     /\ ((s[i].c = Trail) => (i > 1 /\ s[i - 1].c = Lead))
+Inputs == {s \in UNION {[1..n -> [c : Syms, gap : Gaps]] : n \in 0..MaxLen} : WellFormed(s)}
 
 Init ==
   /\ inp \in Inputs /\ eofGap \in Gaps
@@ -77,14 +97,26 @@ Blocked(who) == \E i \in 1..Len(sendq) : sendq[i].who = who
 
 (* ---- Source --------------------------------------------------------------- *)
 NextGap == IF avail < N THEN inp[avail + 1].gap ELSE eofGap
+(* The run loop reads whole scalars: Need(i) input positions starting at i   *)
+(* (position N+1 is the end of input).  It waits while the next scalar is    *)
+(* not completely there; "fetch" = waiting for the rest after PeekStop's     *)
+(* look at the first byte.                                                   *)
+Need(i) == IF i <= N /\ inp[i].c = Lead THEN 2 ELSE 1
+CanRead == rd + Need(rd + 1) <= avail
+(* Waiting: the run loop is blocked in its read (the look at the first byte  *)
+(* of PeekStop is a prompt step, not a wait).                                *)
+Waiting == /\ ~CanRead
+           /\ \/ rpc = "fetch"
+              \/ rpc = "read" /\ (rd = avail \/ ~PeekStop)
 (* A timer that is armed while the run loop waits for input expires during a *)
 (* long gap: the Source may only end a long gap once it has fired.           *)
-TimerPending == rpc = "read" /\ rd = avail /\ last > 0 /\ tm[last] = "armed"
+TimerPending == Waiting /\ last > 0 /\ tm[last] = "armed"
 Deliver ==
   /\ avail <= N
-  /\ rd = avail                         \* one symbol in flight at a time (reads are prompt)
+  /\ WireGaps \/ ~CanRead              \* one scalar in flight at a time (reads are prompt)
   /\ NextGap = "long" => ~TimerPending
-  /\ NextGap = "long" => rpc = "read"   \* a long gap: the parser has caught up and is waiting
+  \* a long gap: the parser has caught up and is waiting, or (WireGaps) it is held up by the consumer
+  /\ NextGap = "long" => (Waiting \/ (WireGaps /\ Blocked(-1)))
   /\ avail' = avail + 1
   /\ UNCHANGED <<inp, eofGap, rd, rpc, sym, st, owner, mu, tm, last, buf, sendq, closed, panic, got, closeReq, clobber, pend, expired, finished>>
 
@@ -96,12 +128,22 @@ RTop ==
 
 StopLast(t) == IF last > 0 /\ t[last] = "armed" THEN [t EXCEPT ![last] = "stopped"] ELSE t
 
+(* Repaired readRune only: one byte of the next scalar is there, not all of  *)
+(* it.  The timer is stopped now; the run loop goes on waiting for the rest. *)
+RPeek ==
+  /\ PeekStop /\ rpc = "read" /\ rd < avail /\ ~CanRead
+  /\ expired' = (last > 0 /\ tm[last] # "armed")
+  /\ tm' = StopLast(tm)
+  /\ rpc' = "fetch"
+  /\ UNCHANGED <<inp, eofGap, avail, rd, sym, st, owner, mu, last, buf, sendq, closed, panic, got, closeReq, clobber, pend, finished>>
+
 RRead ==
-  /\ rpc = "read" /\ rd < avail
-  /\ rd' = rd + 1
-  /\ sym' = IF rd + 1 <= N THEN inp[rd + 1].c ELSE EOFSYM
-  /\ expired' = (last > 0 /\ tm[last] # "armed")      \* Stop() reports whether the timer was still pending
-  /\ tm' = StopLast(tm)                 \* readRune: escTimeout.Stop()
+  /\ rpc \in {"read", "fetch"} /\ CanRead
+  /\ rd' = rd + Need(rd + 1)
+  /\ sym' = IF rd + 1 > N THEN EOFSYM ELSE IF inp[rd + 1].c = Lead THEN Scalar2 ELSE inp[rd + 1].c
+  /\ IF rpc = "fetch" THEN UNCHANGED <<expired, tm>>   \* the timer was dealt with when the first byte arrived
+     ELSE /\ expired' = (last > 0 /\ tm[last] # "armed")      \* Stop() reports whether the timer was still pending
+          /\ tm' = StopLast(tm)                 \* readRune: escTimeout.Stop()
   /\ rpc' = "lock"
   /\ UNCHANGED <<inp, eofGap, avail, st, owner, mu, last, buf, sendq, closed, panic, got, closeReq, clobber, pend, finished>>
 
@@ -109,7 +151,8 @@ RRead ==
 Dispatch(s, c) ==
   CASE s = "ground" /\ c # 27 -> PrintI(c)
     [] s = "escape" /\ c = 65 -> EscI(<<>>, 65)
-    [] s = "csi"    /\ c # 27 -> CsiI(<<>>, <<>>, c)
+    [] s = "escape" /\ c = Scalar2 -> PrintI(c)      \* a non-ASCII scalar ends the sequence and is printed
+    [] s = "csi"    /\ c \notin {27, Scalar2} -> CsiI(<<>>, <<>>, c)    \* (inside a control sequence it is dropped)
     [] OTHER -> [t |-> "none"]
 NextSt(s, c) ==
   CASE c = 27 -> "escape"
@@ -168,7 +211,7 @@ RClose ==
 (* ---- timer callback (as in the code) --------------------------------------- *)
 TFire(k) ==
   /\ tm[k] = "armed" /\ k = last
-  /\ \/ rpc = "read" /\ rd = avail /\ NextGap = "long"   \* silence: the delay elapses
+  /\ \/ Waiting /\ NextGap = "long"                     \* silence: the delay elapses
      \/ StallFire /\ rpc = "top"                          \* ... or the run loop stalls before its next iteration
   /\ tm' = [tm EXCEPT ![k] = "fired"]
   /\ UNCHANGED <<inp, eofGap, avail, rd, rpc, sym, st, owner, mu, last, buf, sendq, closed, panic, got, closeReq, clobber, pend, expired, finished>>
@@ -220,7 +263,7 @@ DoClose ==
 Finished == rpc = "done" /\ buf = <<>> /\ \A k \in 1..MaxLen : tm[k] \in {"idle", "stopped", "done"}
 Stutter == (Finished \/ panic) /\ UNCHANGED vars
 
-Next == \/ Deliver \/ RTop \/ RRead \/ RHand \/ RLock \/ RSent \/ RExit \/ RClose
+Next == \/ Deliver \/ RTop \/ RPeek \/ RRead \/ RHand \/ RLock \/ RSent \/ RExit \/ RClose
         \/ \E k \in 1..MaxLen : TFire(k) \/ TSend(k) \/ TLock(k) \/ TSet(k) \/ FLock(k) \/ FSet(k)
         \/ RecvStep \/ DoClose \/ Stutter
 
@@ -233,11 +276,16 @@ All == got \o buf \o [i \in 1..Len(sendq) |-> sendq[i].it]
 ExactlyOneEOFLast == closed /\ ~panic => (Len(All) > 0 /\ All[Len(All)].t = "eof" /\ \A i \in 1..(Len(All) - 1) : All[i].t # "eof")
 
 (* What the oracle prescribes for this input with its gaps (no Close).      *)
+(* The oracle's symbols are scalars: the lead byte contributes the gap       *)
+(* before it, the trail byte the scalar, preceded by GapInside when the      *)
+(* silence fell between the two bytes.                                       *)
 RECURSIVE WithGaps(_, _)
 WithGaps(i, acc) ==
   IF i > N THEN (IF eofGap = "long" THEN Append(acc, Gap) ELSE acc)
-  ELSE WithGaps(i + 1, (IF inp[i].gap = "long" THEN Append(acc, Gap) ELSE acc) \o <<inp[i].c>>)
-Expected == Run(Init0, WithGaps(1, <<>>)).out
+  ELSE LET g == IF inp[i].gap = "long" THEN <<IF inp[i].c = Trail THEN GapInside ELSE Gap>> ELSE <<>>
+           x == IF inp[i].c = Lead THEN <<>> ELSE IF inp[i].c = Trail THEN <<Scalar2>> ELSE <<inp[i].c>>
+       IN WithGaps(i + 1, acc \o g \o x)
+Expected == Run(Init0, Wire(WithGaps(1, <<>>))).out
 (* When everything has been delivered and nobody closed early, the consumer *)
 (* has received exactly the prescription (timing clauses of C08).           *)
 TimingExact == (Finished /\ ~closeReq /\ ~panic) => Match(got, Expected)
